@@ -170,72 +170,90 @@ Section GuardProofs.
   Qed.
 
   (* ---- frames *)
+  (* what an Ok of the checked read means *)
+  Lemma read_payload_ok_inv ctx file fr raw :
+    read_frame_payload_bytes H ctx file fr = Ok raw ->
+    validate_frame_bounds ctx (N.of_nat (length file)) fr = Ok tt /\
+    raw = slice file (N.to_nat (f_off fr)) (N.to_nat (f_len fr)) /\
+    (f_len fr = 0 \/ H raw = f_checksum fr).
+  Proof.
+    unfold read_frame_payload_bytes.
+    destruct (validate_frame_bounds ctx _ fr) as [[]| |] eqn:Hv; [|discriminate|discriminate].
+    pose proof (raw_slice_length file fr (validate_ok_range _ _ _ Hv)) as Hl.
+    destruct (negb (Nat.eqb (length _) 0)) eqn:He; cbn [andb].
+    - destruct (negb (guard_check H _ (f_checksum fr))) eqn:Hg; [discriminate|].
+      intros E; inversion E; subst raw. repeat split.
+      right. apply negb_false_iff in Hg. apply guard_check_true in Hg. exact Hg.
+    - intros E; inversion E; subst raw. repeat split.
+      left. apply negb_false_iff, Nat.eqb_eq in He. rewrite He in Hl. cbn in Hl. lia.
+  Qed.
+
+  (* THE payload theorem (code as of 55d5bb8): two files on which the stored bytes of a frame read
+     without error hold the same stored bytes there -- for plain and zstd frames alike, since the
+     comparison is on the stored bytes, before decoding *)
+  Theorem payload_read_detects ctx file file' fr raw raw' :
+    read_frame_payload_bytes H ctx file fr = Ok raw ->
+    read_frame_payload_bytes H ctx file' fr = Ok raw' ->
+    (H raw' = H raw -> raw' = raw) ->
+    raw' = raw.
+  Proof.
+    intros H1 H2 Hcf. apply read_payload_ok_inv in H1, H2.
+    destruct H1 as [_ [E1 [Z1 | S1]]], H2 as [_ [E2 [Z2 | S2]]].
+    - subst. rewrite Z1. reflexivity.
+    - subst. rewrite Z1. reflexivity.
+    - subst. rewrite Z2. reflexivity.
+    - apply Hcf. congruence.
+  Qed.
+
   Variable unzstd : bytes -> option bytes.
 
+  Theorem payload_detects ctx file file' fr raw raw' d' :
+    read_frame_payload_bytes H ctx file fr = Ok raw ->
+    read_frame_payload_bytes H ctx file' fr = Ok raw' ->
+    (H raw' = H raw -> raw' = raw) ->
+    frame_canonical_bytes H unzstd ctx file' fr = Ok d' ->
+    frame_canonical_bytes H unzstd ctx file fr = Ok d'.
+  Proof.
+    intros H1 H2 Hcf Hd. pose proof (payload_read_detects _ _ _ _ _ _ H1 H2 Hcf) as E. subst raw'.
+    unfold frame_canonical_bytes in *. rewrite H1. rewrite H2 in Hd. exact Hd.
+  Qed.
 
+  (* a changed non-empty payload is an error, not data (H collision-free on the two strings) *)
+  Theorem payload_change_is_error ctx file file' fr raw :
+    read_frame_payload_bytes H ctx file fr = Ok raw ->
+    slice file' (N.to_nat (f_off fr)) (N.to_nat (f_len fr)) <> raw ->
+    (H (slice file' (N.to_nat (f_off fr)) (N.to_nat (f_len fr))) = H raw ->
+     slice file' (N.to_nat (f_off fr)) (N.to_nat (f_len fr)) = raw) ->
+    forall d, frame_canonical_bytes H unzstd ctx file' fr <> Ok d.
+  Proof.
+    intros H1 Hne Hcf d Hd. unfold frame_canonical_bytes, decode_and_check in Hd.
+    destruct (read_frame_payload_bytes H ctx file' fr) as [raw'| |] eqn:H2; try discriminate.
+    pose proof (read_payload_ok_inv _ _ _ _ H2) as [_ [E2 _]].
+    assert (raw' = raw) by (apply (payload_read_detects _ _ _ _ _ _ H1 H2); subst raw'; exact Hcf).
+    subst. congruence.
+  Qed.
 
-  (* a plain frame: whatever bytes lie in its range are served (no comparison with anything) *)
-  Theorem plain_payload_served ctx (file file' : bytes) fr :
+  (* the checked read never serves what the unchecked one would not *)
+  Theorem checked_refines ctx file fr d :
+    frame_canonical_bytes H unzstd ctx file fr = Ok d -> frame_canonical_bytes_unchecked unzstd ctx file fr = Ok d.
+  Proof.
+    unfold frame_canonical_bytes, frame_canonical_bytes_unchecked, read_frame_payload_bytes, read_frame_payload_bytes_unchecked.
+    destruct (validate_frame_bounds ctx _ fr); [|auto|auto].
+    destruct (negb (Nat.eqb _ 0) && negb (guard_check H _ (f_checksum fr))); [discriminate|]. auto.
+  Qed.
+
+  (* ---- before 55d5bb8: whatever bytes lie in a plain frame's range were served *)
+  Theorem unchecked_plain_payload_served ctx (file file' : bytes) fr :
     length file' = length file ->
     validate_frame_bounds ctx (N.of_nat (length file)) fr = Ok tt ->
     f_zstd fr = false -> (f_canon_len fr = Some (f_len fr) \/ f_canon_len fr = None) ->
-    frame_canonical_bytes unzstd ctx file' fr = Ok (slice file' (N.to_nat (f_off fr)) (N.to_nat (f_len fr))).
+    frame_canonical_bytes_unchecked unzstd ctx file' fr = Ok (slice file' (N.to_nat (f_off fr)) (N.to_nat (f_len fr))).
   Proof using Type.
-    intros Hlen Hv Hz Hc. unfold frame_canonical_bytes. rewrite Hlen, Hv.
-    unfold decode_canonical. rewrite Hz. unfold check_canon_len.
+    intros Hlen Hv Hz Hc. unfold frame_canonical_bytes_unchecked, read_frame_payload_bytes_unchecked. rewrite Hlen, Hv.
+    unfold decode_and_check, decode_canonical. rewrite Hz. unfold check_canon_len.
     destruct Hc as [-> | ->]; [|reflexivity].
     rewrite raw_slice_length; [rewrite N.eqb_refl; reflexivity|].
     rewrite Hlen. apply (validate_ok_range _ _ _ Hv).
-  Qed.
-
-  (* a zstd frame: whatever the decoder makes of the bytes is served, if it has the recorded length *)
-  Theorem zstd_payload_served ctx (file' : bytes) fr d :
-    validate_frame_bounds ctx (N.of_nat (length file')) fr = Ok tt ->
-    f_zstd fr = true ->
-    unzstd (slice file' (N.to_nat (f_off fr)) (N.to_nat (f_len fr))) = Some d ->
-    (f_canon_len fr = Some (N.of_nat (length d)) \/ f_canon_len fr = None) ->
-    frame_canonical_bytes unzstd ctx file' fr = Ok d.
-  Proof.
-    intros Hv Hz Hd Hc. unfold frame_canonical_bytes. rewrite Hv.
-    unfold decode_canonical. rewrite Hz, Hd. unfold check_canon_len.
-    destruct Hc as [-> | ->]; [rewrite N.eqb_refl|]; reflexivity.
-  Qed.
-
-  Lemma fixed_ok_inv ctx file fr d :
-    frame_canonical_bytes_fixed H unzstd ctx file fr = Ok d ->
-    H (slice file (N.to_nat (f_off fr)) (N.to_nat (f_len fr))) = f_checksum fr /\
-    match decode_canonical unzstd fr (slice file (N.to_nat (f_off fr)) (N.to_nat (f_len fr))) with
-    | Ok decoded => check_canon_len fr decoded
-    | e => e
-    end = Ok d.
-  Proof.
-    unfold frame_canonical_bytes_fixed.
-    destruct (validate_frame_bounds ctx _ fr); [|discriminate|discriminate].
-    destruct (negb (guard_check H _ (f_checksum fr))) eqn:Hg; [discriminate|].
-    intros E. split; [|exact E].
-    apply negb_false_iff in Hg. apply guard_check_true in Hg. exact Hg.
-  Qed.
-
-  (* the repaired read: two files on which the same frame reads without error give the same data *)
-  Theorem fixed_payload_detects ctx file file' fr d d' :
-    frame_canonical_bytes_fixed H unzstd ctx file fr = Ok d ->
-    frame_canonical_bytes_fixed H unzstd ctx file' fr = Ok d' ->
-    (forall x y, H x = H y -> x = y) ->
-    d' = d.
-  Proof.
-    intros H1 H2 Hcf. apply fixed_ok_inv in H1, H2. destruct H1 as [S1 D1], H2 as [S2 D2].
-    assert (E : slice file' (N.to_nat (f_off fr)) (N.to_nat (f_len fr)) = slice file (N.to_nat (f_off fr)) (N.to_nat (f_len fr)))
-      by (apply Hcf; congruence).
-    rewrite E in D2. congruence.
-  Qed.
-
-  (* the repaired read never serves what the unrepaired one would not *)
-  Theorem fixed_refines ctx file fr d :
-    frame_canonical_bytes_fixed H unzstd ctx file fr = Ok d -> frame_canonical_bytes unzstd ctx file fr = Ok d.
-  Proof.
-    unfold frame_canonical_bytes_fixed, frame_canonical_bytes.
-    destruct (validate_frame_bounds ctx _ fr); [|discriminate|discriminate].
-    destruct (negb (guard_check H _ (f_checksum fr))); [discriminate|]. auto.
   Qed.
 
   (* ---- verify *)
@@ -250,38 +268,48 @@ Section GuardProofs.
       congruence.
   Qed.
 
-  Lemma verify_fixed_passed ctx file frames s :
-    verify_overall_fixed H unzstd ctx file frames s = Passed ->
-    verify_overall true s = Passed /\
-    forall fr, In fr frames -> exists d, frame_canonical_bytes_fixed H unzstd ctx file fr = Ok d.
+  (* verify(deep) = Passed implies the FramePayloadChecksums check passed *)
+  Lemma verify_deep_passed_payloads s : verify_overall true s = Passed -> v_payloads s = true.
   Proof.
-    unfold verify_overall_fixed, verify_overall. rewrite existsb_app. cbn [existsb].
-    destruct (existsb is_failed (verify_checks true s)); [discriminate|]. cbn [orb].
-    unfold frames_check.
-    destruct (forallb _ frames) eqn:E; [|discriminate]. intros _. split; [reflexivity|].
-    intros fr Hin. rewrite forallb_forall in E. specialize (E fr Hin).
-    destruct (frame_canonical_bytes_fixed H unzstd ctx file fr) as [d| |]; [exists d; reflexivity|discriminate|discriminate].
+    intros Hp. destruct (v_payloads s) eqn:E; [reflexivity|]. exfalso.
+    apply (proj1 (verify_passed_iff true s) Hp Failed); [|reflexivity].
+    unfold verify_checks. rewrite E. apply in_or_app. right. apply in_or_app. right.
+    apply in_or_app. left. cbn. auto.
   Qed.
-
-  Corollary fixed_verify_detects ctx file file' frames s fr d :
-    (forall x y, H x = H y -> x = y) ->
-    verify_overall_fixed H unzstd ctx file' frames s = Passed -> In fr frames ->
-    frame_canonical_bytes_fixed H unzstd ctx file fr = Ok d ->
-    frame_canonical_bytes_fixed H unzstd ctx file' fr = Ok d.
-  Proof.
-    intros Hcf Hv Hin Hd. destruct (verify_fixed_passed _ _ _ _ Hv) as [_ Hall].
-    destruct (Hall fr Hin) as [d' Hd']. rewrite Hd'. f_equal.
-    exact (fixed_payload_detects _ _ _ _ _ _ Hd Hd' Hcf).
-  Qed.
-
-  (* slices away from a patched range *)
-
-
 
   Variable lex_ok vec_ok : bytes -> bool.
 
-  (* verify's whole input is the same on two files that differ only inside a byte range that
-     lies outside the log region and before / outside every index the layout refers to *)
+  (* verify(deep) = Passed on a (faulted) file: every active non-empty frame of the frame table reads
+     there, and -- given it also reads on the clean file -- reads the committed data *)
+  Theorem verify_detects file file' l fr raw :
+    verify_overall true (vstate_of H lex_ok vec_ok file' l) = Passed ->
+    In fr (l_frame_list l) -> f_active fr = true -> f_len fr <> 0 ->
+    read_frame_payload_bytes H (l_ctx l) file fr = Ok raw ->
+    (forall x, H x = H raw -> x = raw) ->
+    read_frame_payload_bytes H (l_ctx l) file' fr = Ok raw /\
+    frame_canonical_bytes H unzstd (l_ctx l) file' fr = frame_canonical_bytes H unzstd (l_ctx l) file fr.
+  Proof.
+    intros Hp Hin Ha Hl H1 Hcf. apply verify_deep_passed_payloads in Hp. cbn [vstate_of v_payloads] in Hp.
+    rewrite forallb_forall in Hp.
+    assert (Hc : In fr (filter checked_frame (l_frame_list l))).
+    { apply filter_In. split; [exact Hin|]. unfold checked_frame. rewrite Ha. cbn [andb].
+      apply negb_true_iff. apply N.eqb_neq. exact Hl. }
+    specialize (Hp fr Hc). unfold payload_reads in Hp.
+    destruct (read_frame_payload_bytes H (l_ctx l) file' fr) as [raw'| |] eqn:H2; try discriminate.
+    assert (raw' = raw) by (apply (payload_read_detects _ _ _ _ _ _ H1 H2); intros; apply Hcf; assumption).
+    subst raw'. split; [reflexivity|].
+    unfold frame_canonical_bytes. rewrite H1, H2. reflexivity.
+  Qed.
+
+  Lemma forallb_ext_in {A} (f g : A -> bool) l : (forall x, In x l -> f x = g x) -> forallb f l = forallb g l.
+  Proof.
+    induction l as [|a l IH]; intros He; [reflexivity|]. cbn [forallb].
+    rewrite (He a (or_introl eq_refl)), IH; [reflexivity|]. intros x Hx. apply He. right. exact Hx.
+  Qed.
+
+  (* verify's whole input is the same on two files that differ only inside a byte range that lies
+     outside the log region, the indexes and the payloads of the active frames (e.g. the payload of a
+     deleted / superseded frame, unreferenced bytes, log slack) *)
   Theorem vstate_blind (pre mid mid' post : bytes) l :
     length mid' = length mid ->
     layout_outside l (N.of_nat (length pre)) (N.of_nat (length pre + length mid)) = true ->
@@ -289,6 +317,7 @@ Section GuardProofs.
   Proof using Type.
     clear unzstd.
     intros Hl Ho. unfold layout_outside in Ho.
+    apply andb_true_iff in Ho. destruct Ho as [Ho Hfr].
     apply andb_true_iff in Ho. destruct Ho as [Ho Hvec].
     apply andb_true_iff in Ho. destruct Ho as [Ho Hlex].
     apply andb_true_iff in Ho. destruct Ho as [Hwal Htime].
@@ -300,6 +329,11 @@ Section GuardProofs.
     - destruct (l_vec l) as [[off len]|]; [|reflexivity].
       pose proof (slice_outside pre mid mid' post (off, len) Hl Hvec) as E. cbn [fst snd] in E. rewrite E. reflexivity.
     - pose proof (slice_outside pre mid mid' post (l_wal_off l, l_wal_size l) Hl Hwal) as E. cbn [fst snd] in E. rewrite E. reflexivity.
+    - apply forallb_ext_in. intros fr Hin. rewrite forallb_forall in Hfr. specialize (Hfr fr Hin).
+      unfold payload_reads, read_frame_payload_bytes.
+      pose proof (slice_outside pre mid mid' post (f_off fr, f_len fr) Hl Hfr) as E. cbn [fst snd] in E. rewrite E.
+      replace (length (pre ++ mid' ++ post)) with (length (pre ++ mid ++ post)) by (rewrite !app_length; lia).
+      reflexivity.
   Qed.
 
   Corollary verify_blind (pre mid mid' post : bytes) l deep :
@@ -331,6 +365,7 @@ Lemma table_known_silent c : known_class c = true -> exists o, In o (table c Fli
 Proof.
   destruct c; cbn [known_class]; try discriminate; intros _;
     first [ exists (VDiff, VDiff, 0); split; [cbn; tauto | reflexivity]
+          | exists (VDiff, VDiff, 1); split; [cbn; tauto | reflexivity]
           | exists (VDiff, VSame, 1); split; [cbn; tauto | reflexivity]
           | exists (VDiff, VError, 2); split; [cbn; tauto | reflexivity] ].
 Qed.
@@ -345,3 +380,15 @@ Proof.
   intros Hc. destruct c; try congruence; cbn [table In]; intros Hin;
     repeat (destruct Hin as [<- | Hin]; [reflexivity|]); destruct Hin.
 Qed.
+
+(* a changed payload of an active frame: no predicted observation has verify(deep) = Passed or a successful read *)
+Lemma table_active_payload_detected c k o :
+  (c = PayPlain \/ c = PayZstd) -> (k = Flip \/ k = Zero) -> In o (table c k) -> o = (VError, VError, 1).
+Proof.
+  intros [-> | ->] [-> | ->]; cbn [table In]; intros [<- | []]; reflexivity.
+Qed.
+
+(* ... and for a chunk of a chunked document verify(deep) is never Passed either *)
+Lemma table_chunk_payload_verify_fails k o :
+  (k = Flip \/ k = Zero) -> In o (table PayChunk k) -> snd o = 1%N.
+Proof. intros [-> | ->]; cbn [table In]; intros [<- | [<- | []]]; reflexivity. Qed.
